@@ -1299,6 +1299,15 @@ NAMES_TREE = {
 }
 
 
+def flat_workloads(n_files=1003):
+    """two flat directories of MORE THAN 999 files (not a multiple of 999: the state database is queried in chunks
+    of 999 keys) with tiny contents from a small pool: ~1000 state rows per writer, a handful of objects"""
+    pool = [b"flat-%d" % i for i in range(7)]
+    w0 = {"f%04d" % i: pool[i % 5] for i in range(n_files)}
+    w1 = {"f%04d" % i: pool[(i % 5) if i % 11 else 5 + i % 2] for i in range(n_files)}
+    return [w0, w1]
+
+
 def dimension_cases(rng):
     """[(dims, kwargs for scheduled_case)]"""
     S, A, Z = b"shared", b"also", b""
@@ -1416,6 +1425,11 @@ def run(ctx):
             sc_ = kw.pop("schedule")
             out = scheduled_case(ctx, cls_, wk_, sc_, "dimension", dims=dims, **kw)
             _register(ctx, out, cases, seen_sched, unknown_total)
+    # > 999 files in one directory level, two writers sharing ONE (already non-empty) State: writer 0 completes
+    # before writer 1 queries the state database
+    out = scheduled_case(ctx, "local", flat_workloads(), [0] * 400 + [1] * 400, "flat-1003",
+                         dims=["state:shared-nonempty-more-than-999-keys-in-one-query", "shape:flat-directory-1003-files"])
+    _register(ctx, out, cases, seen_sched, unknown_total)
     if VERIFY_STREAM:
         # minimal reproduction, both classes: writer 0 verifies; writer 1 decided "new" before; writer 0 places the
         # object; writer 1's probe truncates it; writer 0's post-add verification reads it
@@ -1836,6 +1850,19 @@ def stress(ctx):
         for sig, what in problems:
             ctx.oracle_fail(sig, what, case)
         impl.rm_rf(run_["root"])
+    # > 999 files per directory against the shared State, free-running
+    wkls = flat_workloads()
+    run_ = run_threads(ctx, "base", wkls, [], free=True)
+    problems, *_ = judge("base", wkls, run_)
+    case = {"cls": "base", "workloads": "flat_workloads()", "mode": "free-threads-flat-1003"}
+    ctx.case(case, True)
+    ctx.count("stress:flat-1003")
+    _STATS.setdefault("dims", {})
+    _STATS["dims"]["state:shared-nonempty-more-than-999-keys-in-one-query"] = \
+        _STATS["dims"].get("state:shared-nonempty-more-than-999-keys-in-one-query", 0) + 1
+    for sig, what in problems:
+        ctx.oracle_fail(sig, what, case)
+    impl.rm_rf(run_["root"])
     # re-staging against the shared State: every writer stages its tree, rewrites some files in place with other
     # contents of the same size and a modification time in the same whole second, and stages again
     for _r in range(ctx.n(2, 16)):
@@ -1928,6 +1955,12 @@ def run_processes(ctx, cls, wkls, rounds=1, pool=None):
 
 
 def replay_case(ctx, case):
+    if case.get("mode") == "free-threads-flat-1003":
+        wkls = flat_workloads()
+        run_ = run_threads(ctx, case["cls"], wkls, [], free=True)
+        problems, objs, leftovers, rows = judge(case["cls"], wkls, run_)
+        return {"results": {str(k): v for k, v in run_["results"].items()}, "problems": problems,
+                "violates": bool(problems)}
     wkls = unhexwl(case["workloads"])
     cls = case["cls"]
     if case.get("mode") == "free-threads":
